@@ -198,6 +198,16 @@ func runC01(r *Run) int {
 				checkBase3(w, "C01", level, render3(&vv, level, rng), &v, exp, seen)
 			}
 		}
+		// the orders other tools write (sorted by name / token, reversed, groups exchanged as blocks, rotated)
+		for level := 0; level < 3; level++ {
+			vv := v
+			if level > 0 {
+				randOptional3(&vv, level, rng)
+			}
+			for _, o := range namedOrders(vv.Tokens(level)) {
+				checkBase3(w, "C01", level, join3("CVSS:"+spec.V3Versions[v.Ver], o), &v, exp, seen)
+			}
+		}
 		// directly built struct, exported fields only
 		w.Eval(1)
 		bo := m3.NewBase()
